@@ -542,6 +542,19 @@ class NPFacade:
             return _constarr_function("any", a, (a,) + args, kw)
         return real_np.any(a, *args, **kw)
 
+    def count_nonzero(self, a, *args, **kw):
+        a = self._ua(a)
+        if not isinstance(a, ConstArr) and has_sym(a) and not args and not kw:
+            tot = 0
+            for x in _objarr(a).flat:
+                x = _np_item(x)
+                if is_sym(x):
+                    tot = tot + ITE(x != 0, 1, 0)
+                elif x != 0:
+                    tot = tot + 1
+            return tot
+        return real_np.count_nonzero(a, *args, **kw)
+
     def all(self, a, *args, **kw):
         a = self._ua(a)
         if isinstance(a, ConstArr):
